@@ -378,7 +378,15 @@ def convex(t, env):
                 if d[0] == "-" and d[2] == p:
                     ik = evaluate(k, env)
                     if ik.within(0.0, 1.0):
-                        return evaluate(p, env).join(evaluate(d[1], env))
+                        ib, ia = evaluate(p, env), evaluate(d[1], env)
+                        h_ = ib.join(ia)
+                        # b + k*(a - b) = (1-k)*b + k*a: strictly positive when k > 0, a > 0 and b >= 0 (as the two-product form shows)
+                        if ik.gt0() and ia.gt0() and ib.ge0() and not h_.nan:
+                            h_ = h_.copy()
+                            h_.nz = True
+                            if h_.lo == 0:
+                                h_.lo_open = True
+                        return h_
     return None
 
 
